@@ -293,7 +293,7 @@ def r5_probe_discipline(ctx):
     nofollow = [t for t in fb if origin_keys(T.origins_of_arg(t, 2)) & pk]
     if not nofollow:
         return [violated("C09.R5", "open_follow:probe", b.where(), "no no-follow fallback open of the probed path found (anchor drift)")]
-    reach_wo_enoent = cfg.edge_targets_reachable(fe[0], cut_edges=enoent_eq)
+    reach_wo_enoent = cfg.precise_reach(fe[0], cut_edges=enoent_eq)
     bad = [t for t in nofollow if t.bb in reach_wo_enoent]
     if bad:
         out.append(violated("C09.R5", "open_follow:fallback-only-enoent", bad[0].where(),
@@ -302,7 +302,7 @@ def r5_probe_discipline(ctx):
     else:
         out.append(holds("C09.R5", "open_follow:fallback-only-enoent", probes[0].where(), "after a failed probe the no-follow open is reachable only through the ENOENT branch"))
     # a link whose body could be read is always followed, whatever the body looks like ('pipe:[n]', 'socket:[n]', ' (deleted)')
-    reach_ok = cfg.edge_targets_reachable(fe[1], cut_edges=[e.key() for e in fe[0]])
+    reach_ok = cfg.precise_reach(fe[1], cut_edges=[e.key() for e in fe[0]])
     bad = [t for t in nofollow if t.bb in reach_ok]
     if bad:
         out.append(violated("C09.R5", "open_follow:link-always-followed", bad[0].where(),
@@ -310,7 +310,7 @@ def r5_probe_discipline(ctx):
                             "(anonymous inodes: 'pipe:[n]', 'socket:[n]') are then opened as the procfs symlink itself"))
     else:
         out.append(holds("C09.R5", "open_follow:link-always-followed", probes[0].where(), "a readable link is always opened through the magic-link open"))
-    reach_wo_toolong = cfg.edge_targets_reachable(fe[0], cut_edges=toolong_eq)
+    reach_wo_toolong = cfg.precise_reach(fe[0], cut_edges=toolong_eq)
     if sinks[0].bb in reach_wo_toolong:
         out.append(violated("C09.R5", "open_follow:follow-needs-link", sinks[0].where(), "the magic-link open is reachable after a failed probe that does not prove the target is a link"))
     else:
